@@ -190,7 +190,7 @@ func init() {
 		Assumptions: []string{"pre-inserted pages are aligned and of the table's page size"},
 		Real:        []string{"mem/vm/mmu (auto allocation)", "vm.PageTable", "mem/vm/tlb", "mem/vm/mmuCache", "noc/directconnection"},
 		Stubs:       []string{"translation requesters", "control driver"},
-		FaultKinds:  []string{"reset-mid-stream", "control-verb"},
+		FaultKinds:  []string{"reset-mid-stream", "control-verb", "page-table-of-foreign-type"},
 		Quick:       kit.Budget{Runs: 40000, WallS: 100},
 		Thorough:    kit.Budget{Runs: 1500000, WallS: 1200},
 		Gen:         genC27, Exec: execC27, Shrink: shrinkCfg,
